@@ -188,11 +188,30 @@ def stat_cases(tier):
                 for view in views_for(nd, vp):
                     for axis in axes_for(nd):
                         out.append(['stat', list(shape), attr, sel, view, axis])
+        # views that fix one dimension with an integer (what IndexedData and the profile/image viewers pass):
+        # the result and the reduction axes are those of the viewed array
+        for sel in sels:
+            for view in int_views(shape):
+                for axis in axes_for(nd - 1) if nd > 1 else [None]:
+                    out.append(['stat', list(shape), 'main', sel, view, axis])
+    return out
+
+
+def int_views(shape):
+    nd = len(shape)
+    out = []
+    for i in range(nd):
+        for idx in sorted(set([0, 1, shape[i] - 1, -1])):
+            rest = [[[None, None, None]], [[None, None, None], [1, None, 2]]][1 if nd > 1 else 0]
+            for others in itertools.product(rest, repeat=nd - 1):
+                v = [list(e) for e in others]
+                v.insert(i, idx)
+                out.append(v)
     return out
 
 
 def to_view(view):
-    return None if view is None else tuple(slice(*e) for e in view)
+    return None if view is None else tuple(e if isinstance(e, int) else slice(*e) for e in view)
 
 
 def to_axis(axis):
@@ -260,6 +279,9 @@ def stat_class(sel, sel_is_slice, mask_in_view_any, view, axis, nd):
         a = 'selection'
     if view is None:
         b = 'no-view'
+    elif any(isinstance(e, int) for e in view):
+        b = 'integer-view'
+        nd -= 1
     elif all(e[2] in (None, 1) for e in view):
         b = 'unit-view'
     else:
@@ -711,7 +733,8 @@ RULE = ('complete Cartesian products (see product_dimensions).  An evaluation is
 ASSUMPTIONS = [
     'finite=False is exercised on NaN-free palettes only (+-inf kept): the statement does not decide whether '
     'unfiltered NaN inputs propagate (DESIGN C10 calibration a)',
-    'views are None or tuples (length 1..ndim) of positive-step, non-empty slices; integer (dimension-dropping), '
+    'views are None, tuples (length 1..ndim) of positive-step, non-empty slices, or full-length tuples with exactly '
+    'one integer (dimension-dropping: result shape and axes are those of the viewed array); several integers, '
     'Ellipsis, boolean and fancy views are outside the statement\'s domain (calibration b); empty views excluded '
     'because the shape of a statistic over zero elements along a kept axis is not documented',
     'axis is None, an int, or a non-empty strictly increasing tuple (including the all-axes tuple); the empty tuple '
